@@ -227,7 +227,21 @@ func ruleC11Refuse(rule string) ruleFn {
 		if fn := c.Anchor(rule, fRep+"PrepareRemoveDisk"); fn != nil {
 			disk := "phi{$1 | replica.GenerateSnapshotDiskName($1)}"
 			data := "phi{$0.diskData[$1] | $0.diskData[replica.GenerateSnapshotDiskName($1)]}"
-			sites := append(CallsTo(fn, fRep+"markDiskAsRemoved"), CallsTo(fn, fRep+"processPrepareRemoveDisks")...)
+			// the actions are emitted by processPrepareRemoveDisks, or (helper written out in
+			// place) by the stores that fill the PrepareRemoveAction literals
+			emit := CallsTo(fn, fRep+"processPrepareRemoveDisks")
+			inPlace := false
+			if len(emit) == 0 {
+				eachInstr(fn, func(in ssa.Instruction) {
+					if st, ok := in.(*ssa.Store); ok {
+						if tn, fld, _ := fieldAddrOf(st.Addr); tn == "PrepareRemoveAction" && fld == "Action" {
+							emit = append(emit, in)
+							inPlace = true
+						}
+					}
+				})
+			}
+			sites := append(CallsTo(fn, fRep+"markDiskAsRemoved"), emit...)
 			c.Guard(rule, fn, sites, "mark removed / emit actions", lockOrUnlock,
 				needWLock("replica lock taken"),
 				atom("mode == RW", eqAtom(`"RW"`, "$0.mode")),
@@ -235,9 +249,12 @@ func ruleC11Refuse(rule string) ruleFn {
 				atom("not the head", neAtom(disk, "$0.info.Head")),
 				atom("not the latest snapshot", neAtom("$0.info.Parent", disk)),
 				atom("not the base snapshot", neAtom(`""`, data+".Parent")))
-			c.Guard(rule, fn, CallsTo(fn, fRep+"processPrepareRemoveDisks"), "emit actions", nil, okcall(fRep+"markDiskAsRemoved"))
-			if len(sites) < 2 {
-				c.Bad(rule, FnName(fn)+" | structure", "", "expected markDiskAsRemoved and processPrepareRemoveDisks", nil)
+			c.Guard(rule, fn, emit, "emit actions", nil, okcall(fRep+"markDiskAsRemoved"))
+			if len(sites) < 2 || len(emit) == 0 {
+				c.Bad(rule, FnName(fn)+" | structure", "", "expected markDiskAsRemoved and the emission of the coalesce / remove actions", nil)
+			}
+			if inPlace {
+				prepareActionsShape(c, rule, fn, disk)
 			}
 		}
 		if fn := c.Anchor(rule, fRep+"RemoveDiffDisk"); fn != nil {
@@ -255,28 +272,8 @@ func ruleC11Refuse(rule string) ruleFn {
 				atom("mode == RW", eqAtom(`"RW"`, "$0.mode")),
 				atom("target is not the head", neAtom("$0.info.Head", "$1")))
 		}
-		if fn := c.Anchor(rule, fRep+"processPrepareRemoveDisks"); fn != nil {
-			R := NewRenderer(fn)
-			// coalesce source=disk into target=its parent, then remove disk
-			okShape := false
-			var lits []string
-			eachInstr(fn, func(in ssa.Instruction) {
-				if s, ok := in.(*ssa.Store); ok {
-					a := R.V(s.Addr)
-					if strings.Contains(a, ".Action") || strings.Contains(a, ".Source") || strings.Contains(a, ".Target") {
-						lits = append(lits, a[strings.LastIndex(a, ".")+1:]+"="+R.V(s.Val))
-					}
-				}
-			})
-			j := strings.Join(lits, ";")
-			if strings.Contains(j, `Action="coalesce";Source=$1[*];Target=$0.diskData[$1[*]].Parent`) && strings.Contains(j, `Action="remove";Source=$1[*]`) {
-				okShape = true
-			}
-			if okShape {
-				c.OK(rule, FnName(fn)+" | coalesce disk into its parent, then remove disk", c.P.Pos(fn.Pos()), j, false)
-			} else {
-				c.Bad(rule, FnName(fn)+" | coalesce disk into its parent, then remove disk", c.P.Pos(fn.Pos()), "emitted actions are "+j, nil)
-			}
+		if fn := c.P.Fn(fRep + "processPrepareRemoveDisks"); fn != nil { // optional: may be written out in PrepareRemoveDisk
+			prepareActionsShape(c, rule, fn, "$1[*]")
 		}
 		if fn := c.Anchor(rule, fRep+"removeDiskNode"); fn != nil {
 			R := NewRenderer(fn)
@@ -310,7 +307,8 @@ func ruleC11Refuse(rule string) ruleFn {
 					}
 				}
 			}
-			c.Guard(rule, fn, hits, "return index", nil, atom("name matches", eqAtom("$0.activeDiskData[*].Name", "$1")))
+			// slot 0 is a placeholder: the scan may skip it (`if i == 0 { continue }` or a loop from 1)
+			c.Guard(rule, fn, hits, "return index", nil, atom("name matches", eqAtom("$0.activeDiskData[*].Name", "$1"), eqAtom("$0.activeDiskData[+*1].Name", "$1"), eqAtom("$0.activeDiskData[*1].Name", "$1")))
 		}
 		c.Floor(rule, 20)
 	}
@@ -926,4 +924,26 @@ func fieldName(a *ssa.FieldAddr) string {
 		}
 	}
 	return "?"
+}
+
+// prepareActionsShape: the emitted actions are "coalesce <src> into diskData[<src>].Parent", then
+// "remove <src>", for src = the disk the request named.
+func prepareActionsShape(c *Ctx, rule string, fn *ssa.Function, src string) {
+	R := NewRenderer(fn)
+	var lits []string
+	eachInstr(fn, func(in ssa.Instruction) {
+		if s, ok := in.(*ssa.Store); ok {
+			if tn, fld, _ := fieldAddrOf(s.Addr); tn == "PrepareRemoveAction" && (fld == "Action" || fld == "Source" || fld == "Target") {
+				lits = append(lits, fld+"="+R.V(s.Val))
+			}
+		}
+	})
+	j := strings.Join(lits, ";")
+	key := FnName(fn) + " | coalesce disk into its parent, then remove disk"
+	if strings.Contains(j, `Action="coalesce";Source=`+src+`;Target=$0.diskData[`+src+`].Parent`) && strings.Contains(j, `Action="remove";Source=`+src) &&
+		strings.Index(j, `Action="coalesce"`) < strings.Index(j, `Action="remove"`) && strings.Count(j, "Action=") == 2 {
+		c.OK(rule, key, c.P.Pos(fn.Pos()), j, false)
+	} else {
+		c.Bad(rule, key, c.P.Pos(fn.Pos()), "emitted actions are "+j, nil)
+	}
 }
